@@ -419,8 +419,12 @@ def _make_fields_iterator(
         return _iterfields
 
     # Finally, if all else fails, just use `vars` on the instance.
+    #   An instance of a class which declares `__slots__` may have no `__dict__`.
+    has_slots = hasattr(tp, "__slots__")
+
     def _itervars(val: t.Any) -> t.Iterator[tuple[str, t.Any]]:
-        return ((k, v) for k, v in vars(val).items() if not k.startswith("_"))
+        attribs = getattr(val, "__dict__", {}) if has_slots else vars(val)
+        return ((k, v) for k, v in attribs.items() if not k.startswith("_"))
 
     return _itervars
 
